@@ -479,7 +479,10 @@ func (s *Shard) SearchPoints(searchRequest models.SearchRequest) ([]models.Searc
 					var ok bool
 					current, ok = current[s].(map[string]any)
 					if !ok {
-						return nil, fmt.Errorf("could not access nested property when selecting: %s", p)
+						// An earlier select path has put the whole value of
+						// this segment here, e.g. "tags" before "tags.0". What
+						// this path selects is already part of it.
+						break
 					}
 				}
 			}
